@@ -72,6 +72,13 @@ C01onRet == ("C01" \in Props /\ Ev.top /\ T # <<>>) =>
                IF EndsOfLogged(Ev.res) = T[Ev.n][Ev.pos - B] THEN TRUE
                ELSE Print(<<"C01 real ends differ from derivation: line", l, "node", Ev.n, "pos", Ev.pos,
                             EndsOfLogged(Ev.res), T[Ev.n][Ev.pos - B]>>, FALSE)
+\* every returned tree is a valid derivation (children from the right sub-parsers, contiguous spans, leaves
+\* spell the input, length rule and maximality of the longest-path combinators)
+TreesValid ==
+  ("C01" \in Props /\ Ev.top /\ T # <<>> /\ "trees" \in DOMAIN Ev) =>
+     \A i \in 1..Len(Ev.trees) :
+        IF D!ValidTree(G, w, B, T, Ev.n, Ev.trees[i], Ev.pos, {}) THEN TRUE
+        ELSE Print(<<"C01 returned tree is not a derivation: line", l, "node", Ev.n, "pos", Ev.pos, Ev.trees[i]>>, FALSE)
 SpansOK == \A i \in 1..Len(Ev.res) : Ev.res[i][2] <= Ev.res[i][3] /\ Ev.res[i][3] <= B + Len(w)
 C02onCall == ("C02" \in Props /\ Ev.bo > 0) =>
                IF Ev.act <= Len(w) - (Ev.pos - B) + 2 THEN TRUE
@@ -137,7 +144,7 @@ TraceCall ==
 
 TraceRet ==
   /\ Ev.ev = "ret"
-  /\ C01onRet /\ SpansOK
+  /\ C01onRet /\ SpansOK /\ TreesValid
   /\ IF JudgeOnly THEN UNCHANGED vars ELSE MachineRet
   /\ apio' = IF ~JudgeOnly /\ Ev.top /\ apio = <<>> /\ Ev.n = Trace[root].root THEN ApiOutcome' ELSE apio
   /\ rr' = IF Ev.top /\ rr = 0 THEN l ELSE rr
